@@ -47,6 +47,9 @@ def main():
 
     args = parser.parse_args()
 
+    if args.w is not None and args.w < 1:
+        verif.util.error("The accumulation window (-w) must be at least 1 timestep")
+
     ifile = verif.input.get_input(args.ifile)
     locations = ifile.locations
     locationids = [loc.id for loc in locations]
